@@ -121,6 +121,10 @@ def check_arrangement(rec, seq, rnd, tvariant):
     elif rnd.random() < .3:
         # a reference to an uncaptured column written next to escaped (doubled) braces is still a reference
         template = rnd.choice(['{{{nosuchcol}}}', '{%s} {{{nosuchcol}}}' % customs[0], '{nosuchcol}}}', '{{ {nosuchcol} }}'])
+    elif rnd.random() < .4:
+        # a reference to a column the format string MAPS but does not capture as text (amount, date, location): a template is filled from the
+        # custom captures only, so this is a reference to an uncaptured column like any other
+        template = '{%s} {%s}' % (customs[0], rnd.choice(['amount', 'date', 'location', 'field']))
     else:
         template = '{%s} {nosuchcol}' % customs[0]
     if 'description' in seq and template and tvariant == 'valid':
